@@ -66,6 +66,17 @@ impl Drop for Uniq {
     }
 }
 
+/// every invocation of a matcher function built by the walkers: (the pattern's debug id or 999, diagnostics being collected?)
+pub static TRACE: std::sync::Mutex<Vec<(u32, bool)>> = std::sync::Mutex::new(Vec::new());
+
+pub fn trace_push(id: u32, diag: bool) {
+    TRACE.lock().unwrap_or_else(|e| e.into_inner()).push((id, diag));
+}
+
+pub fn trace_take() -> Vec<(u32, bool)> {
+    std::mem::take(&mut *TRACE.lock().unwrap_or_else(|e| e.into_inner()))
+}
+
 /// 1: the next real function panics; 2: the next default body panics
 pub static ARMED_GLOBAL: std::sync::atomic::AtomicU32 = std::sync::atomic::AtomicU32::new(0);
 
